@@ -349,7 +349,21 @@ func checkC15(c *Ctx) {
 						return
 					}
 					for _, st := range sel.States {
-						if st.Dir == types.RecvOnly && hfl.K.Key(st.Chan) == "p0->"+kCC+"ready" {
+						ck := hfl.K.Key(st.Chan)
+						if ck == "p0" {
+							// the helper is a method of the channel's own type (`c.ready.wait(ctx)`): every call from Get passes c.ready
+							ck = ""
+							for _, s := range callsIn(get, false, func(cc *ssa.CallCommon) bool { return calleeIs(cc, hf) }) {
+								if len(s.Common().Args) > 0 {
+									if a := fl.K.Key(s.Common().Args[0]); ck == "" || ck == a {
+										ck = a
+										continue
+									}
+								}
+								ck = "?"
+							}
+						}
+						if st.Dir == types.RecvOnly && ck == "p0->"+kCC+"ready" {
 							readyOnlyNil = true
 						}
 					}
@@ -417,17 +431,19 @@ func checkC15(c *Ctx) {
 	{
 		blocking := false
 		n := 0
-		eachInstr(sig, func(in ssa.Instruction) {
-			switch x := in.(type) {
-			case *ssa.Select:
-				n++
-				if x.Blocking {
+		for _, hf := range helperClosure(p, sig, 1) {
+			eachInstr(hf, func(in ssa.Instruction) {
+				switch x := in.(type) {
+				case *ssa.Select:
+					n++
+					if x.Blocking {
+						blocking = true
+					}
+				case *ssa.Send:
 					blocking = true
 				}
-			case *ssa.Send:
-				blocking = true
-			}
-		})
+			})
+		}
 		c.Check(!blocking && n == 1, "C15.2", "signalReady is a non-blocking send", p.FuncPos(sig),
 			"a single select with default: never blocks while the lock is held, at most one pending signal", "signalReady may block under the lock")
 	}
